@@ -1,6 +1,7 @@
-(* C07 property theorems (statements; proofs are in Proofs.v).
-   Model: C07/Model.v (hand-written, tied to /repo by the correspondence check of checks/c07.py);
-   character classes: SlskGen.CharTable, regenerated from the running interpreter on every run. *)
+(* C07 property theorems (statements; proofs are in Proofs.v) about the REPAIRED code (fixes F04 F05 F27).
+   Model: C07/Model.v (hand-written, tied to the source by the correspondence check of checks/c07.py);
+   character classes: SlskGen.CharTable, regenerated from the running interpreter on every run.
+   [ops_ok]: every LoadSettings operation lists each directory path once. *)
 From Slsk Require Import Base.Tac.
 From SlskGen Require Import CharTable.
 From Slsk Require Import C07.Model C07.Proofs.
@@ -9,96 +10,101 @@ From Slsk Require Import C07.Model C07.Proofs.
 Theorem C07_table_ok : table_ok = true /\ (forall c, lower (lower c) = lower c) /\ (forall c, is_word (lower c) = is_word c).
 Proof. exact (conj table_ok_true (conj lower_idem is_word_lower)). Qed.
 
-(* the wildcard pattern "(?:(?<=\W|_)|^)[^\W_]*TERM(?=[\W_]|$)" puts no condition on what precedes TERM:
-   it matches iff TERM occurs somewhere followed by a delimiter *)
+(* the wildcard pattern "(?:(?<=\W|_)|^)[^\W_]*TERM(?=[\W_]|$)" puts no condition on what precedes TERM *)
 Theorem C07_wildcard_left_free : forall t p,
   term_occurs true t p = (fix any (p : str) : bool := hit t p || match p with [] => false | _ :: p' => any p' end) p.
 Proof. intros t p. exact (occ_wild_run t p true). Qed.
 
-(* the term map invariant holds after every sequence of operations: every item in a weak set is
-   reachable from each of its words (all its words are keys) *)
+(* term map invariant after every sequence of operations: every item in a weak set is filed under each of its words *)
 Theorem C07_termmap_inv : forall ops x w,
   In x (indexed (run ops)) -> In w (item_words x) -> In w (keys (run ops)) /\ filed_under x w = true.
 Proof.
   intros ops x w Hx Hw. split; [exact (termmap_inv ops x Hx w Hw)|]. unfold filed_under. apply mem_str_In. exact Hw.
 Qed.
 
-(* prefilter soundness for queries without wildcard terms: what the regular expressions accept is never
-   dropped by the term-map pass (terms are lower-cased by the parser: C07_parse_lowered) *)
-Theorem C07_prefilter_sound_partial : forall ops q x,
-  q_wild q = [] -> lowered q -> In x (indexed (run ops)) ->
+(* prefilter soundness, ALL queries (include and wildcard terms): what the regular expressions accept is never
+   dropped by the term-map pass *)
+Theorem C07_prefilter_sound : forall ops q x,
+  lowered q -> In x (indexed (run ops)) ->
   (forall t, In t (q_incl q) -> term_occurs false t (qpath x) = true) ->
+  (forall t, In t (q_wild q) -> term_occurs true t (qpath x) = true) ->
   In x (prefilter (run ops) q).
-Proof. intros ops q x. apply prefilter_sound_partial. exact (termmap_inv ops). Qed.
-
-(* ... and it is false with a wildcard term (finding F04): "*ing" over sing.mp3, ring.mp3 *)
-Theorem C07_prefilter_sound_refuted : exists ops q x,
-  In x (indexed (run ops)) /\ matches q x = true /\ ~ In x (prefilter (run ops) q).
-Proof. exact prefilter_sound_refuted. Qed.
+Proof. intros ops q x. apply prefilter_sound. exact (termmap_inv ops). Qed.
 
 Theorem C07_parse_lowered : forall s, lowered (parse s).
 Proof. exact parse_lowered. Qed.
 
-(* every query: whatever is returned is indexed, satisfies every include / wildcard / exclude matcher and
-   contains no excluded phrase (as the code compares them) *)
+(* whatever a query returns is indexed, satisfies every include / wildcard / exclude matcher, contains no excluded
+   phrase (case-insensitively) *)
 Theorem C07_query_sound : forall ops q ph n x, In x (query_items (run ops) q ph n) ->
   In x (indexed (run ops)) /\ matches q x = true /\ phrase_free ph x = true.
 Proof. intros ops. apply query_sound. Qed.
 
-(* below the cap, a query without wildcard terms returns exactly the indexed items that match *)
-Theorem C07_query_exact_partial : forall ops qs ph n x,
+(* below the cap a query returns EXACTLY the indexed items that match, for every parsed query with a positive term *)
+Theorem C07_query_exact : forall ops qs ph n x,
   let s := run ops in let q := parse qs in
-  q_wild q = [] -> q_incl q <> [] -> length (query_all s q ph) <= n ->
+  has_inclusion q = true -> length (query_all s q ph) <= n ->
   (In x (query_items s q ph n) <-> In x (indexed s) /\ matches q x = true /\ phrase_free ph x = true).
 Proof.
-  intros ops qs ph n x s q Hw Hi Hn. apply query_exact_partial; try assumption.
+  intros ops qs ph n x s q Hi Hn. apply query_exact; try assumption.
   - exact (termmap_inv ops).
   - apply parse_lowered.
 Qed.
-
-Theorem C07_query_exact_refuted : exists ops q x n,
-  length (query_all (run ops) q []) <= n /\
-  In x (indexed (run ops)) /\ matches q x = true /\ phrase_free [] x = true /\ ~ In x (query_items (run ops) q [] n).
-Proof. exact query_exact_refuted. Qed.
 
 Theorem C07_cap : forall ops q ph n,
   length (query_items (run ops) q ph n) = Nat.min n (length (query_all (run ops) q ph)) /\
   (forall x, In x (query_items (run ops) q ph n) -> In x (query_all (run ops) q ph)).
 Proof. intros ops. apply cap. Qed.
 
-(* a scan leaves in the scanned directory exactly the files of the disk that lie below it and not inside a
-   nested shared directory, each once per disk entry, with its mtime, named relative to the scanned directory *)
-Theorem C07_scan_exact : forall s p disk d, find_listed p (listed s) = Some d ->
+(* only files held by a listed (shared) directory are ever returned *)
+Theorem C07_query_only_listed : forall ops q ph n x,
+  In x (query_items (run ops) q ph n) -> In x (listed_items (run ops)).
+Proof. intros ops q ph n x H. apply indexed_listed. apply (query_sound _ _ _ _ _ H). Qed.
+
+(* every held item points at the directory object that holds it (and is named relative to it) *)
+Theorem C07_owner_pointer : forall ops d x, ops_ok ops -> In d (listed (run ops)) -> In x (ditems d) ->
+  oid x = did d /\ opath x = dpath d /\ find_obj (run ops) (oid x) = Some d.
+Proof. exact owner_pointer. Qed.
+
+(* INDEX PARTITION, all operation sequences: every held file lies below the directory that holds it, that directory is
+   the innermost listed one containing the file, no file is held by two directories, and no directory holds a file twice:
+   each file is indexed at most once, under the innermost shared directory containing it *)
+Theorem C07_index_partition : forall ops, ops_ok ops ->
+  let s := run ops in
+  (forall d x, In d (listed s) -> In x (ditems d) ->
+     path_prefix (dpath d) (dir_of x) = true /\
+     forall d', In d' (listed s) -> path_prefix (dpath d') (dir_of x) = true -> length (dpath d') <= length (dpath d)) /\
+  (forall d d' x y, In d (listed s) -> In d' (listed s) -> In x (ditems d) -> In y (ditems d') ->
+     abs_path x = abs_path y -> d = d') /\
+  (forall d, In d (listed s) -> NoDup (map abs_path (ditems d))).
+Proof. exact index_partition. Qed.
+
+(* a scan leaves in the scanned directory exactly the files of the disk that lie below it and not inside a nested shared
+   directory, with their mtimes, named relative to the scanned directory *)
+Theorem C07_scan_exact : forall s p disk d, NoDup (map fst disk) -> find_listed p (listed s) = Some d ->
   exists d', find_listed p (listed (step s (Scan p disk))) = Some d' /\ dpath d' = p /\
     (forall f, In f disk -> in_region d (children_of d (listed s)) (fst f) ->
        exists y, In y (ditems d') /\ abs_path y = fst f /\ imtime y = snd f /\ opath y = p) /\
     (forall y, In y (ditems d') ->
        exists f, In f disk /\ in_region d (children_of d (listed s)) (fst f) /\ abs_path y = fst f /\ imtime y = snd f /\ opath y = p).
 Proof.
-  intros s p disk d H. destruct (scan_exact s p disk d H) as [d' [F [I [P _]]]].
+  intros s p disk d ND H. destruct (scan_exact s p disk d H) as [d' [F [I [P _]]]].
   destruct (find_listed_path _ _ _ H) as [Hp _].
-  exists d'. split; [exact F|]. split; [exact P|]. rewrite I. rewrite <- Hp. apply scanned_items_exact.
+  exists d'. split; [exact F|]. split; [exact P|]. rewrite I. rewrite <- Hp. apply scanned_items_exact. exact ND.
 Qed.
 
 (* the reported file count is the number of items held by the listed directories *)
 Theorem C07_stats : forall s, snd (get_stats s) = length (listed_items s).
 Proof. exact stats_files. Qed.
 
-(* "only files of shared directories are returned" is false (finding F05b): the items of a removed parent stay
-   in the weak sets while an item moved into a nested directory still points at the parent object *)
-Theorem C07_query_only_listed_refuted : exists ops q x,
-  In x (query_items (run ops) q [] 100) /\ ~ In x (listed_items (run ops)).
-Proof. exact query_only_listed_refuted. Qed.
-
-(* finding F05: an item moved into a nested shared directory keeps its owner pointer and parent-relative name *)
-Theorem C07_owner_pointer_refuted : exists ops d x,
-  In d (listed (run ops)) /\ In x (ditems d) /\ oid x <> did d /\ opath x <> dpath d.
-Proof. exact owner_pointer_refuted. Qed.
-
-(* non-vacuity: a concrete reachable state, a parsed query with a non-empty result below the cap *)
+(* non-vacuity: a reachable state; the wildcard query that used to return nothing (F04) returns both files; after the
+   history that used to leave stale pointers (F05) the moved item points at its new directory and is named relative to it *)
 Example C07_nonvacuous :
-  let s := run ops_f04 in let q := parse w_sing in
-  q_wild q = [] /\ q_incl q <> [] /\ length (query_all s q []) <= 100 /\
-  In (mkItem 0 [w_d] [] w_sing 5%N) (query_items s q [] 100) /\ keys s <> [] /\
-  find_listed [w_d] (listed (run (firstn 1 ops_f04))) <> None.
-Proof. vm_compute. repeat split; try discriminate; try lia. left. reflexivity. Qed.
+  let s := run ops_f04 in let q := parse (c [42;105;110;103]) in
+  ops_ok ops_f04 /\ ops_ok ops_zombie /\
+  has_inclusion q = true /\ length (query_all s q []) = 2 /\ keys s <> [] /\
+  listed_items (run ops_zombie) = [mkItem 1 [w_P; w_C] [] w_deep 6%N] /\
+  query_items (run ops_zombie) (mkQuery [w_top] [] []) [] 100 = [].
+Proof.
+  vm_compute. repeat split; try discriminate; try (repeat constructor).
+Qed.
